@@ -1,1 +1,2 @@
+import Neutrino.Props.C10
 import Neutrino.Props.C16
